@@ -3,7 +3,9 @@
 
   hpfeeds/broker/server.py       Server.subscribe / unsubscribe / publish
   hpfeeds/broker/connection.py   Connection.is_closing / connection_lost / on_publish / on_subscribe / on_unsubscribe /
-                                 authenticate / message_received
+                                 authenticate / on_auth / on_auth_result / message_received / connection_made
+  hpfeeds/asyncio/protocol.py    BaseProtocol.message_received (the dispatch on the opcode, handlers resolved along
+                                 Connection -> BaseProtocol)
 
 Each method becomes one Gallina definition in the monad of coq/PyBroker.v (a computation over the broker model's state);
 coq/BrokerGenEq.v proves every one of them equal to the hand-written function of coq/Broker.v the theorems are about.
@@ -36,16 +38,22 @@ METHODS = [            # (class, method, parameter kinds after self), in depende
     ('Connection', 'on_subscribe', ['text', 'text']),
     ('Connection', 'on_unsubscribe', ['text', 'text']),
     ('Connection', 'authenticate', ['text', 'text', 'lookup']),
+    ('Connection', 'on_auth', ['text', 'text']),
+    ('Connection', 'on_auth_result', ['lres', 'text', 'text']),
+    ('BaseProtocol', 'message_received', ['opcode', 'text']),
     ('Connection', 'message_received', ['opcode', 'text']),
+    ('Connection', 'connection_made', ['transport-arg']),
 ]
-COQTY = {'conn': 'nat', 'text': 'bytes', 'lookup': 'lookup', 'opcode': 'Z', 'ignored': None}
-FILES = {'Server': 'hpfeeds/broker/server.py', 'Connection': 'hpfeeds/broker/connection.py'}
+COQTY = {'conn': 'nat', 'text': 'bytes', 'lookup': 'lookup', 'opcode': 'Z', 'ignored': None, 'lres': 'lres', 'transport-arg': None}
+FILES = {'Server': 'hpfeeds/broker/server.py', 'Connection': 'hpfeeds/broker/connection.py',
+         'BaseProtocol': 'hpfeeds/asyncio/protocol.py'}
 
 MODELLED_METRICS = {'CLIENT_CONNECTIONS', 'CONNECTION_MADE', 'CONNECTION_LOST', 'SUBSCRIPTIONS'}
 SKIPPED_METRICS = {'CONNECTION_ERROR', 'CONNECTION_READY', 'RECEIVE_PUBLISH_COUNT', 'RECEIVE_PUBLISH_SIZE',
                    'CLIENT_SEND_BUFFER_FILL', 'CLIENT_RECEIVE_BUFFER_FILL', 'CLIENT_SEND_BUFFER_DEADLINE_START',
                    'CLIENT_SEND_BUFFER_DEADLINE_RECOVER', 'CLIENT_SEND_BUFFER_DRAIN'}
 SKIPPED_ATTR_ASSIGN = {'uid'}
+SKIPPED_SETUP_ATTRS = {'peer', 'port'}
 OPCODES = {'OP_ERROR': 'op_error', 'OP_INFO': 'op_info', 'OP_AUTH': 'op_auth', 'OP_PUBLISH': 'op_publish',
            'OP_SUBSCRIBE': 'op_subscribe', 'OP_UNSUBSCRIBE': 'op_unsubscribe'}
 # ghost actions: (class.method) -> list of (anchor, action with the method's own parameter names)
@@ -55,7 +63,9 @@ GHOST = {
     'Connection.on_unsubscribe': [('after-call:unsubscribe', 'AUnsub self chan')],
     'Connection.connection_lost': [('end', 'AGone self')],
     'Connection.authenticate': [('after-assign:subchans', 'AAuth self ident akrow_row secret')],
+    'Connection.connection_made': [('start', 'AConn self (nonce (conns s self))')],
 }
+READERS = {'readauth': 2, 'readpublish': 3, 'readsubscribe': 2, 'readunsubscribe': 2}     # reader -> number of fields
 GHOST_PARAMS = {'Server.publish': ['source', 'chan', 'data'], 'Connection.on_subscribe': ['ident', 'chan'],
                 'Connection.on_unsubscribe': ['ident', 'chan'], 'Connection.authenticate': ['ident', 'secret', 'akrow']}
 
@@ -81,11 +91,13 @@ class Fn:
         self.name = name
         self.key = cls + '.' + name
         self.env = {}                       # python name -> (kind, coq term)
-        if cls == 'Connection':
+        if cls in ('Connection', 'BaseProtocol'):
             self.env['self'] = ('conn', 'self')
         for p, k in zip(params, kinds):
             if k != 'ignored':
                 self.env[p] = (k, p)
+        self.enqueued = 0
+        self.counted = 0
         self.rows = {}                      # lookup name -> row variable, once `if not X: ... return` has been passed
         self.opaque = set()                 # locals whose value is not modelled
         self.ghost_used = set()
@@ -223,6 +235,17 @@ class Fn:
                 if (k1, k2) != ('text', 'text'):
                     raise Unsupported(e, 'hashsecret operands')
                 return 'text', '(py_hashsecret %s %s)' % (a, b), g1 + g2
+            if is_attr(f, 'isawaitable') and is_name(f.value, 'inspect') and len(e.args) == 1:
+                k, x, g = self.expr(e.args[0])
+                if k == 'lookup' and x.startswith('(store '):
+                    return 'bool', 'async_store', g
+                raise Unsupported(e, 'isawaitable of something that did not come from get_authkey')
+            if is_attr(f, 'get_authkey') and len(e.args) == 1 and self.tr.get_authkey_ok:
+                g = self.server_of(f.value)
+                k, i, g2 = self.expr(e.args[0])
+                if k != 'text':
+                    raise Unsupported(e, 'get_authkey argument')
+                return 'lookup', '(store %s)' % i, g + g2
             if is_name(f, 'hasattr') and len(e.args) == 2:
                 k, _, _ = self.expr(e.args[0])
                 if k == 'transport' and isinstance(e.args[1], ast.Constant) and e.args[1].value in ('_sock', '_ssl_protocol'):
@@ -305,12 +328,14 @@ class Fn:
                 return 'ret_true'
             if (self.key == 'Connection.message_received' and isinstance(v, ast.Call) and is_attr(v.func, 'message_received')
                     and isinstance(v.func.value, ast.Call) and is_name(v.func.value.func, 'super') and not v.func.value.args
-                    and len(v.args) == 2 and not v.keywords):
+                    and len(v.args) == 2 and not v.keywords and ('BaseProtocol', 'message_received') in self.tr.done):
                 a = [self.expr(x) for x in v.args]
                 if [k for k, _, _ in a] != ['opcode', 'text'] or any(g for _, _, g in a):
                     raise Unsupported(s, 'super().message_received arguments')
-                self.tr.uses_super = True
-                return '(letB (fun s => (%s, %s)) (fun a => call_ret (super_message_received self (fst a) (snd a))))' % (a[0][1], a[1][1])
+                return '(call_ret (BaseProtocol_message_received self %s %s))' % (a[0][1], a[1][1])
+            if self.key == 'BaseProtocol.message_received' and isinstance(v, ast.Call) and is_attr(v.func) and is_name(v.func.value, 'self') \
+                    and not v.keywords and len(v.args) == 1:
+                return self.dispatch(s, v)
             raise Unsupported(s, 'return of something other than None / True')
         if isinstance(s, ast.Continue):
             if rest:
@@ -331,6 +356,17 @@ class Fn:
             self.env = saved
             loop = self.guarded('(for_in (fun s => %s) (fun %s => %s))' % (l, s.target.id, body), g)
             return '(seqB %s\n   %s)' % (loop, self.block(rest, top))
+        if (isinstance(s, ast.Try) and len(s.body) == 1 and isinstance(s.body[0], ast.Assign) and len(s.body[0].targets) == 1
+                and is_name(s.body[0].targets[0]) and isinstance(s.body[0].value, ast.Call) and is_attr(s.body[0].value.func, 'result')
+                and is_name(s.body[0].value.func.value) and self.env.get(s.body[0].value.func.value.id, ('',))[0] == 'lres'
+                and not s.body[0].value.args and not s.orelse and not s.finalbody and len(s.handlers) == 1
+                and is_name(s.handlers[0].type, 'Exception') and not s.handlers[0].name and self.terminates(s.handlers[0].body)):
+            # try: akrow = task.result()  except Exception: ...; return   -- the completed lookup either raised or has a value
+            nm = s.body[0].targets[0].id
+            tk = s.body[0].value.func.value.id
+            h = self.block(s.handlers[0].body)
+            self.env[nm] = ('lookup', nm)
+            return '(fun s => match %s with RRaise => %s s | RLook %s => %s s end)' % (tk, h, nm, self.block(rest, top))
         if isinstance(s, ast.Try):
             if (s.orelse or s.finalbody or len(s.handlers) != 1 or not is_name(s.handlers[0].type, 'Exception')
                     or s.handlers[0].name):
@@ -338,12 +374,53 @@ class Fn:
             b = self.block(s.body)
             h = self.block(s.handlers[0].body)
             return '(seqB (tryB %s %s)\n   %s)' % (b, h, self.block(rest, top))
+        if isinstance(s, ast.AugAssign):
+            if (is_attr(s.target, '_lookups_pending') and is_name(s.target.value, 'self') and isinstance(s.value, ast.Constant)
+                    and s.value.value == 1):
+                if isinstance(s.op, ast.Add) and self.key == 'Connection.on_auth':
+                    # the count of lookups in flight IS the length of the queue of registered completions (one field)
+                    self.counted += 1
+                    return self.block(rest, top)
+                if isinstance(s.op, ast.Sub) and self.key == 'Connection.on_auth_result':
+                    self.counted += 1
+                    return '(seqB %s\n   %s)' % (self.eff('p_pop_pending self'), self.block(rest, top))
+            raise Unsupported(s, 'augmented assignment')
         if isinstance(s, ast.Assign):
             return self.assign(s, rest, top)
         if isinstance(s, ast.Expr) and isinstance(s.value, ast.Call):
             parts = self.call_stmt(s.value)
             return self.seq(parts, self.block(rest, top))
         raise Unsupported(s, 'statement')
+
+    def dispatch(self, s, v):
+        """return self.on_x(*readx(data)) / return self.on_error(readerror(data)), the handler resolved along Connection -> BaseProtocol"""
+        h = v.func.attr
+        arg = v.args[0]
+        star = isinstance(arg, ast.Starred)
+        call = arg.value if star else arg
+        if not (isinstance(call, ast.Call) and is_name(call.func) and call.func.id in self.tr.imported['BaseProtocol']
+                and len(call.args) == 1 and not call.keywords):
+            raise Unsupported(s, 'dispatch argument')
+        k, d, g = self.expr(call.args[0])
+        if k != 'text' or g:
+            raise Unsupported(s, 'reader argument')
+        reader = call.func.id
+        where = self.tr.resolve(h)
+        if where == 'raise':
+            # the reader may raise, and the handler raises NotImplementedError: an exception either way
+            if reader not in ('readerror', 'readinfo'):
+                raise Unsupported(s, 'reader in front of a handler that is not implemented')
+            return '(fun s => BRaise s)'
+        if where != 'Connection' or not star or reader not in READERS:
+            raise Unsupported(s, 'dispatch to %s.%s through %s' % (where, h, reader))
+        n = READERS[reader]
+        want = self.tr.kinds[('Connection', h)]
+        if want != ['text'] * n:
+            raise Unsupported(s, 'handler arity')
+        names = ['a%d' % (i + 1) for i in range(n)]
+        pat = '(%s)' % ', '.join(names) if n == 2 else '(%s, %s, %s)' % tuple(names)
+        return '(fun s => match %s %s with Some %s => call_ret (Connection_%s self %s) s | None => BRaise s end)' % (
+            reader, d, pat, h, ' '.join(names))
 
     def if_stmt(self, s, rest, top):
         # `if hasattr(self.transport, ..): ... elif hasattr(self.transport, ..): ...` : wrapping the socket for metering
@@ -360,8 +437,12 @@ class Fn:
             kinds = []
         if kinds and all(k == 'hasattr-transport' for k in kinds) and not chain[-1].orelse:
             return self.block(rest, top)
-        # `if not akrow: ...; return` : from here on akrow is a row
         t = s.test
+        if (isinstance(t, ast.Compare) and len(t.ops) == 1 and isinstance(t.ops[0], ast.IsNot) and is_name(t.left) and t.left.id in self.opaque
+                and isinstance(t.comparators[0], ast.Constant) and t.comparators[0].value is None and not s.orelse
+                and self.only_opaque_effects(s.body)):
+            return self.block(rest, top)        # if sock is not None: sock.setsockopt(..): keep-alive options, not modelled
+        # `if not akrow: ...; return` : from here on akrow is a row
         if (isinstance(t, ast.UnaryOp) and isinstance(t.op, ast.Not) and is_name(t.operand) and t.operand.id in self.env
                 and self.env[t.operand.id][0] == 'lookup' and self.terminates(s.body) and not s.orelse):
             nm = t.operand.id
@@ -383,15 +464,23 @@ class Fn:
             raise Unsupported(s, 'multiple targets')
         tg = s.targets[0]
         if isinstance(tg, ast.Name):
-            try:
-                k, t, g = self.expr(s.value)
-            except Unsupported:
+            if self.opaque_rhs(s.value):
                 self.opaque.add(tg.id)
                 return self.block(rest, top)
-            if g or k not in ('text', 'bool'):
+            k, t, g = self.expr(s.value)
+            if k not in ('text', 'bool', 'lookup'):
                 raise Unsupported(s, 'local of kind %s' % k)
+            if k == 'lookup':
+                self.env[tg.id] = (k, t)            # get_authkey(ident): the store's answer, named by its expression
+                return self.guarded(self.block(rest, top), g)
             self.env[tg.id] = (k, tg.id)
-            return '(letB (fun s => %s) (fun %s => %s))' % (t, tg.id, self.block(rest, top))
+            return self.guarded('(letB (fun s => %s) (fun %s => %s))' % (t, tg.id, self.block(rest, top)), g)
+        if (isinstance(tg, ast.Tuple) and all(is_attr(x) and is_name(x.value, 'self') and x.attr in SKIPPED_SETUP_ATTRS for x in tg.elts)
+                and self.is_extra_info(s.value, 'peername')):
+            return self.block(rest, top)        # self.peer, self.port = transport.get_extra_info('peername'): not modelled
+        if (is_attr(tg, 'transport') and is_name(tg.value, 'self') and is_name(s.value) and s.value.id in self.env
+                and self.env[s.value.id][0] == 'transport-arg'):
+            return self.block(rest, top)        # self.transport = transport: the connection's transport is its index
         if is_attr(tg) and is_name(tg.value, 'self') and self.cls == 'Connection':
             a = tg.attr
             if a in SKIPPED_ATTR_ASSIGN:
@@ -413,6 +502,46 @@ class Fn:
             parts += self.ghost('after-assign:' + a)
             return self.seq(parts, self.block(rest, top))
         raise Unsupported(s, 'assignment target')
+
+    def is_extra_info(self, v, key):
+        return (isinstance(v, ast.Call) and is_attr(v.func, 'get_extra_info') and is_name(v.func.value) and v.func.value.id in self.env
+                and self.env[v.func.value.id][0] == 'transport-arg' and len(v.args) == 1 and isinstance(v.args[0], ast.Constant)
+                and v.args[0].value == key and not v.keywords)
+
+    def opaque_rhs(self, v):
+        """right-hand sides whose value is not modelled (the name may then only be used by statements that are skipped)"""
+        def arith(x):
+            if isinstance(x, ast.Constant) and isinstance(x.value, int):
+                return True
+            if is_name(x) and x.id in self.tr.imported[self.cls]:
+                return True
+            if isinstance(x, ast.Subscript) and is_name(x.value) and x.value.id in self.tr.imported[self.cls]:
+                return arith(x.slice)
+            if isinstance(x, ast.BinOp):
+                return arith(x.left) and arith(x.right)
+            return False
+        if isinstance(v, ast.BinOp) and arith(v):
+            return True                                        # high = SIZES[OP_PUBLISH] * 50
+        if (isinstance(v, ast.Call) and is_attr(v.func, 'ensure_future') and is_name(v.func.value, 'asyncio') and len(v.args) == 1
+                and is_name(v.args[0]) and self.env.get(v.args[0].id, ('',))[0] == 'lookup' and not v.keywords):
+            return True                                        # task = asyncio.ensure_future(akrow)
+        if self.is_extra_info(v, 'socket'):
+            return True                                        # sock = transport.get_extra_info('socket')
+        return False
+
+    def only_opaque_effects(self, stmts):
+        """statements that only call methods of locals that are not modelled (sock.setsockopt(..)), possibly under
+        `if sys.platform.startswith(..)`"""
+        for x in stmts:
+            if isinstance(x, ast.Expr) and isinstance(x.value, ast.Call) and is_attr(x.value.func) and is_name(x.value.func.value) \
+                    and x.value.func.value.id in self.opaque:
+                continue
+            if (isinstance(x, ast.If) and not x.orelse and isinstance(x.test, ast.Call) and is_attr(x.test.func, 'startswith')
+                    and is_attr(x.test.func.value, 'platform') and is_name(x.test.func.value.value, 'sys')
+                    and self.only_opaque_effects(x.body)):
+                continue
+            return False
+        return True
 
     def metric(self, c):
         """NAME.inc() / NAME.dec() / NAME.labels(..).inc(..) / .dec() / .observe(..)"""
@@ -497,6 +626,38 @@ class Fn:
             if f.attr == 'append':
                 return [self.eff('p_subs_append %s %s' % (ch, x), g)]
             return [self.guarded('(chk (fun s => memn %s (subs s %s)) (p_subs_remove %s %s))' % (x, ch, ch, x), g)]
+        # task.add_done_callback(lambda task: self.on_auth_result(task, ident, secret))
+        if f.attr == 'add_done_callback' and is_name(f.value) and f.value.id in self.opaque and len(c.args) == 1 \
+                and isinstance(c.args[0], ast.Lambda) and self.key == 'Connection.on_auth':
+            lam = c.args[0]
+            b = lam.body
+            la = [a.arg for a in lam.args.args]
+            if (len(la) == 1 and isinstance(b, ast.Call) and is_attr(b.func, 'on_auth_result') and is_name(b.func.value, 'self')
+                    and not b.keywords and [a.id for a in b.args if is_name(a)] == [la[0], 'ident', 'secret'] and len(b.args) == 3
+                    and self.env.get('ident', ('',))[0] == 'text' and self.env.get('secret', ('',))[0] == 'text'):
+                self.enqueued += 1
+                return [self.eff('p_enqueue self ident secret')]
+            raise Unsupported(c, 'done-callback')
+        # self.server.connections.add(self): registration in connection_made (self.server is the server given to __init__)
+        if f.attr == 'add' and is_attr(f.value, 'connections') and len(c.args) == 1 and self.key == 'Connection.connection_made' \
+                and is_attr(f.value.value, 'server') and is_name(f.value.value.value, 'self') and is_name(c.args[0], 'self'):
+            return [self.eff('p_register self')]
+        # self.info(self.server.name, self.authrand)
+        if f.attr == 'info' and is_name(f.value, 'self') and len(c.args) == 2 and self.tr.base_ok.get('info') \
+                and is_attr(c.args[0], 'name') and is_attr(c.args[1], 'authrand') and is_name(c.args[1].value, 'self'):
+            g = self.server_of(c.args[0].value)
+            return [self.guarded('(eff (fun s => wr self (FInfo bname (nonce (conns s self))) s))', g)]
+        # methods of this connection that have been translated
+        if is_name(f.value, 'self') and self.cls == 'Connection' and ('Connection', f.attr) in self.tr.done \
+                and f.attr not in ('connection_lost',):
+            args = [self.expr(a) for a in c.args]
+            want = self.tr.kinds[('Connection', f.attr)]
+            if [k for k, _, _ in args] != want or any(gg for _, _, gg in args):
+                raise Unsupported(c, 'arguments of Connection.%s' % f.attr)
+            return ['(call_stmt (Connection_%s self %s))' % (f.attr, ' '.join(t for _, t, _ in args))]
+        # self.protocol_error(..): BaseProtocol's is `pass` and Connection does not override it
+        if f.attr == 'protocol_error' and is_name(f.value, 'self') and self.tr.resolve('protocol_error') == 'pass':
+            return []
         # methods of a connection
         k, x, g = self.expr(f.value)
         if k == 'conn':
@@ -546,18 +707,52 @@ class Translator:
                     logs.add(s.targets[0].id)
             self.imported[c], self.metrics[c], self.loggers[c] = imp, met, logs
         self.base_ok = self.check_base()
+        self.get_authkey_ok = self.check_get_authkey()
+
+    def check_get_authkey(self):
+        """Server.get_authkey must be `return self.auth.get_authkey(<its parameter>)`: the store's answer, unchanged"""
+        for m in self.find_class('Server').body:
+            if isinstance(m, ast.FunctionDef) and m.name == 'get_authkey':
+                body = [x for x in m.body if not (isinstance(x, ast.Expr) and isinstance(x.value, ast.Constant))]
+                params = [a.arg for a in m.args.args[1:]]
+                if (len(body) == 1 and isinstance(body[0], ast.Return) and isinstance(body[0].value, ast.Call)
+                        and is_attr(body[0].value.func, 'get_authkey') and is_attr(body[0].value.func.value, 'auth')
+                        and is_name(body[0].value.func.value.value, 'self') and len(params) == 1
+                        and [a.id for a in body[0].value.args if is_name(a)] == params and not body[0].value.keywords
+                        and not m.decorator_list):
+                    return True
+        return False
+
+    def resolve(self, name):
+        """where self.<name> of a Connection is defined: 'Connection' (translated), or what BaseProtocol's default does:
+        'raise' (raise NotImplementedError(..)) / 'pass'"""
+        for m in self.find_class('Connection').body:
+            if isinstance(m, ast.FunctionDef) and m.name == name:
+                if ('Connection', name) in self.done:
+                    return 'Connection'
+                raise Unsupported(m, 'Connection.%s is not translated' % name)
+        for m in self.find_class('BaseProtocol').body:
+            if isinstance(m, ast.FunctionDef) and m.name == name:
+                body = [x for x in m.body if not (isinstance(x, ast.Expr) and isinstance(x.value, ast.Constant))]
+                if len(body) == 1 and isinstance(body[0], ast.Raise) and isinstance(body[0].exc, ast.Call) \
+                        and is_name(body[0].exc.func, 'NotImplementedError'):
+                    return 'raise'
+                if len(body) == 1 and isinstance(body[0], ast.Pass):
+                    return 'pass'
+                raise Unsupported(m, 'BaseProtocol.%s is neither NotImplementedError nor pass' % name)
+        raise Unsupported(name, 'method not found')
 
     def check_base(self):
         """BaseProtocol.error / publish of hpfeeds/asyncio/protocol.py must be `self.transport.write(msgX(<the parameters>))`,
         and Connection must not override them"""
-        t = ast.parse(open(os.path.join(REPO, 'hpfeeds/asyncio/protocol.py')).read())
-        ok = {'error': False, 'publish': False}
+        t = self.trees['BaseProtocol']
+        ok = {'error': False, 'publish': False, 'info': False}
         for s in t.body:
             if isinstance(s, ast.ClassDef) and s.name == 'BaseProtocol':
                 for m in s.body:
                     if isinstance(m, ast.FunctionDef) and m.name in ok:
                         body = [x for x in m.body if not (isinstance(x, ast.Expr) and isinstance(x.value, ast.Constant))]
-                        want = {'error': 'msgerror', 'publish': 'msgpublish'}[m.name]
+                        want = {'error': 'msgerror', 'publish': 'msgpublish', 'info': 'msginfo'}[m.name]
                         params = [a.arg for a in m.args.args[1:]]
                         if (len(body) == 1 and isinstance(body[0], ast.Expr) and isinstance(body[0].value, ast.Call)
                                 and is_attr(body[0].value.func, 'write') and is_attr(body[0].value.func.value, 'transport')
@@ -571,7 +766,7 @@ class Translator:
         if bases != ['BaseProtocol']:
             raise Unsupported(conn, 'Connection bases')
         for m in conn.body:
-            if isinstance(m, ast.FunctionDef) and m.name in ('error', 'publish', 'process_pending'):
+            if isinstance(m, ast.FunctionDef) and m.name in ('error', 'publish', 'info', 'process_pending'):
                 raise Unsupported(m, 'Connection overrides BaseProtocol.%s' % m.name)
         return ok
 
@@ -605,11 +800,15 @@ class Translator:
             for anchor, _ in GHOST.get(key, []):
                 if anchor not in f.ghost_used:
                     raise Unsupported(fd, 'ghost anchor %s not met' % anchor)
-            binders = (['(self : nat)'] if c == 'Connection' else []) + \
-                      ['(%s : %s)' % (p, COQTY[k]) for p, k in zip(params, kinds) if k != 'ignored']
+            if key == 'Connection.on_auth' and (f.enqueued, f.counted) != (1, 1):
+                raise Unsupported(fd, 'on_auth must register one completion and count it once (found %d, %d)' % (f.enqueued, f.counted))
+            if key == 'Connection.on_auth_result' and f.counted != 1:
+                raise Unsupported(fd, 'on_auth_result must decrement the count of lookups in flight once')
+            binders = (['(self : nat)'] if c in ('Connection', 'BaseProtocol') else []) + \
+                      ['(%s : %s)' % (p, COQTY[k]) for p, k in zip(params, kinds) if COQTY[k] is not None]
             defs.append('(* %s: %s.%s *)\nDefinition %s_%s %s : BM bool :=\n  fn %s.' % (FILES[c], c, m, c, m, ' '.join(binders), body))
             self.done.add((c, m))
-        head = ['(* GENERATED by harness/pytrans3.py from %s and %s - do not edit *)' % tuple(os.path.join(REPO, p) for p in FILES.values()),
+        head = ['(* GENERATED by harness/pytrans3.py from %s, %s and %s - do not edit *)' % tuple(os.path.join(REPO, p) for p in FILES.values()),
                 'From Coq Require Import ZArith List Bool Arith.',
                 'From Coq Require Import Strings.Byte.',
                 'From HP Require Import Bytes Utf8 Sha1 Wire Params Broker PyBroker.',
@@ -617,9 +816,12 @@ class Translator:
                 'Open Scope Z_scope.',
                 '',
                 'Section Gen.',
-                '(* self.process_pending() (BaseProtocol, translated separately) and super().message_received (BaseProtocol dispatch) *)',
+                '(* Server.name; Server.auth.get_authkey for a synchronous store; whether get_authkey returns an awaitable *)',
+                'Variable bname : bytes.',
+                'Variable store : ident -> lookup.',
+                'Variable async_store : bool.',
+                '(* self.process_pending(): the frame loop of BaseProtocol (hand-written in BrokerGenRun.pp_src, on fuel) *)',
                 'Variable process_pending : nat -> state -> res.',
-                'Variable super_message_received : nat -> Z -> bytes -> BM bool.',
                 '']
         return '\n'.join(head) + '\n\n'.join(defs) + '\n\nEnd Gen.\n'
 
